@@ -128,6 +128,7 @@ func (st *State) mkRuntimeError(msg string) Iface {
 
 func (st *State) startPanic(v Iface) {
 	g := st.g()
+	st.panicWhere = st.where()
 	g.panicVal = &v
 	if len(g.frames) == 0 {
 		st.uncaught = &v
@@ -190,7 +191,7 @@ func (st *State) unwind() {
 	}
 	if len(g.frames) == 0 {
 		st.uncaught = g.panicVal
-		st.finish(stPanic, "panic: "+st.panicString(*g.panicVal)+" (goroutine "+fmt.Sprint(g.id)+")")
+		st.finish(stPanic, "panic: "+st.panicString(*g.panicVal)+" (goroutine "+fmt.Sprint(g.id)+") raised at "+st.panicWhere)
 		return
 	}
 	st.top().panicking = true
@@ -1022,10 +1023,7 @@ func (st *State) concreteIndex(i Int, n int) int {
 		}
 		return idx
 	}
-	inRange := tCmp("bvult", i.T, bvConst(i.W, uint64(n)))
-	if n == 0 {
-		inRange = tFalse
-	}
+	inRange := indexInRange(i, n)
 	if !st.decide(inRange) {
 		panic(goPanic{fmt.Sprintf("index out of range [symbolic] with length %d", n)})
 	}
@@ -1043,10 +1041,7 @@ func (st *State) symIndexRead(elems []Value, idx Int) Value {
 		}
 		return elems[k]
 	}
-	inRange := tCmp("bvult", idx.T, bvConst(idx.W, uint64(n)))
-	if n == 0 {
-		inRange = tFalse
-	}
+	inRange := indexInRange(idx, n)
 	if !st.decide(inRange) {
 		panic(goPanic{fmt.Sprintf("index out of range [symbolic] with length %d", n)})
 	}
@@ -1058,4 +1053,20 @@ func (st *State) symIndexRead(elems []Value, idx Int) Value {
 		return mkIntT(e0.W, e0.Signed, res)
 	}
 	return elems[st.concrete(idx)]
+}
+
+// indexInRange builds 0 <= i < n for an index of any integer type (compared at 64 bits).
+func indexInRange(i Int, n int) *Term {
+	if n == 0 {
+		return tFalse
+	}
+	t := i.T
+	if i.W < 64 {
+		if i.Signed {
+			t = tSext(t, 64)
+		} else {
+			t = tZext(t, 64)
+		}
+	}
+	return tCmp("bvult", t, bvConst(64, uint64(n)))
 }
